@@ -188,29 +188,60 @@ func (g *docGen) list(depth int) {
 func (g *docGen) table(data bool) {
 	if data {
 		g.f("data-table")
-		g.w(`<table class="wikitable" border="1" bgcolor="#fff">`)
-		if g.r.Bool() {
+		// the classifier's rule cascade: roles, datatable, summary, caption/thead/tfoot/colgroup/col/th,
+		// abbr/headers/scope, sizes, nested tables, embedded objects, editable areas
+		attr := Pick(g.r, []string{` class="wikitable" border="1" bgcolor="#fff"`, ` role="grid"`, ` role="treegrid"`, ` role="table"`, ` role="presentation"`, ` role="navigation"`,
+			` datatable="0"`, ` datatable="1"`, ` summary="` + g.words(3) + `"`, ` summary=""`, ``, ``, ` contenteditable="true"`, ` border=1 style="background-color:#eee"`})
+		if g.r.P(1, 10) {
+			g.w(`<div contenteditable="true">`)
+			defer g.w(`</div>`)
+		}
+		g.w(`<table` + attr + `>`)
+		switch g.r.Intn(5) {
+		case 0:
 			g.w("<caption>" + g.words(4) + "</caption>")
+		case 1:
+			g.w("<caption> </caption>")
+		case 2:
+			g.w("<colgroup><col><col span=2></colgroup>")
 		}
-		g.w("<thead><tr>")
-		cols := g.r.Range(2, 5)
-		for c := 0; c < cols; c++ {
-			g.w(`<th scope="col">` + g.word() + "</th>")
-		}
-		g.w("</tr></thead><tbody>")
-		rows := g.r.Range(2, 6)
-		for r := 0; r < rows; r++ {
-			g.w("<tr>")
+		cols := g.r.Range(1, 7)
+		rows := Pick(g.r, []int{1, 2, 3, 4, 6, 21})
+		if g.r.Bool() {
+			g.w("<thead><tr>")
 			for c := 0; c < cols; c++ {
-				if g.r.P(1, 6) {
+				g.w(`<th` + Pick(g.r, []string{` scope="col"`, ` abbr="x"`, ` headers="h1"`, ``, ` role="columnheader"`}) + `>` + Pick(g.r, []string{g.word(), " ", ""}) + "</th>")
+			}
+			g.w("</tr></thead>")
+		}
+		g.w("<tbody" + Pick(g.r, []string{"", "", ` role="rowgroup"`}) + ">")
+		for r := 0; r < rows; r++ {
+			g.w("<tr" + Pick(g.r, []string{"", "", "", ` role="row"`}) + ">")
+			for c := 0; c < cols; c++ {
+				switch g.r.Intn(14) {
+				case 0:
 					g.w(`<td><div` + g.attrs() + `>` + g.words(g.r.Range(10, 60)) + "</div></td>")
-				} else {
+				case 1:
+					g.w(`<td colspan="` + fmt.Sprint(g.r.Range(0, 4)) + `" role="gridcell">` + g.words(3) + "</td>")
+				case 2:
+					g.w(`<td><abbr title="x">` + g.word() + "</abbr></td>")
+				case 3:
+					g.w(`<td><table><tr><td>` + g.words(5) + "</td></tr></table></td>")
+				case 4:
+					g.w(`<td>` + Pick(g.r, []string{`<embed src="x.swf">`, `<object data="x"></object>`, `<iframe src="http://www.youtube.com/embed/tbl"></iframe>`, `<applet></applet>`, `<img src="/img/cell.png">`}) + "</td>")
+				case 5:
+					g.w(`<th scope="row">` + g.word() + "</th>")
+				default:
 					g.w(`<td style="x" class="c">` + g.words(g.r.Range(1, 4)) + "</td>")
 				}
 			}
 			g.w("</tr>")
 		}
-		g.w("</tbody></table>\n")
+		g.w("</tbody>")
+		if g.r.P(1, 5) {
+			g.w("<tfoot><tr><td>" + g.words(2) + "</td></tr></tfoot>")
+		}
+		g.w("</table>\n")
 		return
 	}
 	g.f("layout-table")
@@ -300,6 +331,53 @@ func (g *docGen) embed() {
 		g.f("foreign-iframe")
 		g.wf(`<iframe src="http://ads.example.org/frame?id=%d" sandbox></iframe>`+"\n", g.tok)
 	}
+}
+
+// MaxDepth bounds the nesting depth of generated documents (set per tier).
+var MaxDepth = 300
+
+// deep nests content in a long chain of elements.
+func (g *docGen) deep() {
+	g.f("deep-nesting")
+	d := Pick(g.r, []int{20, 60, 150, MaxDepth})
+	if d > MaxDepth {
+		d = MaxDepth
+	}
+	kind := g.r.Intn(6)
+	var open, close string
+	switch kind {
+	case 0:
+		open, close = "<div>", "</div>"
+	case 1:
+		open, close = "<span>", "</span>"
+	case 2:
+		open, close = "<blockquote>", "</blockquote>"
+	case 3:
+		open, close = "<ul><li>", "</li></ul>"
+	case 4:
+		open, close = "<b><i>", "</i></b>"
+	case 5:
+		open, close = "<table><tr><td>", "</td></tr></table>"
+		if d > 120 {
+			d = 120
+		}
+	}
+	for i := 0; i < d; i++ {
+		g.w(open)
+		if i%17 == 3 {
+			g.w(g.words(3))
+		}
+	}
+	g.w(g.words(g.r.Range(10, 80)))
+	if g.r.P(1, 3) {
+		g.w(`<a href="/deep/2">2</a> <a href="/deep/3">3</a>`)
+	}
+	if !g.r.P(1, 6) { // sometimes leave everything unclosed
+		for i := 0; i < d; i++ {
+			g.w(close)
+		}
+	}
+	g.w("\n")
 }
 
 func (g *docGen) hidden() {
@@ -630,7 +708,9 @@ func (g *docGen) body(host string) string {
 		if i == pagerAt {
 			pageURL = g.pager(host)
 		}
-		switch x := g.r.Intn(40); {
+		switch x := g.r.Intn(41); {
+		case x == 40:
+			g.deep()
 		case x < 18:
 			g.paragraph()
 		case x < 20:
